@@ -256,7 +256,7 @@ impl Serve {
         }
     }
 
-    pub(crate) fn finish(mut self) -> Vec<WireMsg> {
+    pub(crate) fn finish(mut self, is_ap: &dyn Fn(&IpAddr) -> bool) -> Vec<WireMsg> {
         self.drive();
         self.cancel.cancel();
         self.drive();
@@ -266,11 +266,11 @@ impl Serve {
         }
         self.server.set_nonblocking(false).unwrap();
         Self::pump(&mut self.server, &mut self.buf);
-        decode_wire(&self.buf)
+        decode_wire(&self.buf, is_ap)
     }
 }
 
-fn decode_wire(buf: &[u8]) -> Vec<WireMsg> {
+fn decode_wire(buf: &[u8], is_ap: &dyn Fn(&IpAddr) -> bool) -> Vec<WireMsg> {
     let mut out = Vec::new();
     let mut i = 0usize;
     let caps = vec![
@@ -315,18 +315,25 @@ fn decode_wire(buf: &[u8]) -> Vec<WireMsg> {
         let mut updates = Vec::new();
         let mut is_bad = false;
         if ty == 0 {
-            // Route Monitoring: the rest is one BGP UPDATE, parsed by the repo's own decoder
-            let mut codec = bgp::PeerCodec::negotiate(&caps, &caps);
-            let mut b = bytes::BytesMut::from(&body[42..]);
-            match codec.try_parse(&mut b) {
-                Ok(Some(p)) => match bgp::validate_message(p, false) {
-                    Ok(it) => updates.extend(it),
-                    Err(_) => is_bad = true,
-                },
-                _ => is_bad = true,
-            }
-            if !b.is_empty() {
-                is_bad = true;
+            // Route Monitoring: the rest is one BGP UPDATE, parsed by the repo's own decoder.  Whether
+            // the NLRI carry path ids is not on the wire (the station knows it from the PeerUp's OPENs):
+            // for a peer that negotiates ADD-PATH try with path ids first.
+            let try_parse = |ap: bool| -> Option<Vec<bgp::Message>> {
+                let mut codec = bgp::PeerCodec::negotiate(&caps, &caps);
+                for f in [Family::IPV4, Family::IPV6] {
+                    codec.set_family(f, bgp::FamilyState { addpath_rx: ap, addpath_tx: ap, ..Default::default() });
+                }
+                let mut b = bytes::BytesMut::from(&body[42..]);
+                let v: Vec<bgp::Message> = match codec.try_parse(&mut b) {
+                    Ok(Some(p)) => bgp::validate_message(p, false).ok()?.collect(),
+                    _ => return None,
+                };
+                if b.is_empty() { Some(v) } else { None }
+            };
+            let parsed = if is_ap(&addr) { try_parse(true).or_else(|| try_parse(false)) } else { try_parse(false) };
+            match parsed {
+                Some(v) => updates = v,
+                None => is_bad = true,
             }
         }
         out.push(WireMsg { ty, peer_type, flags, addr: Some(addr), updates, bad: is_bad });
